@@ -211,9 +211,16 @@ fn attempt_assignment_tactics(
                         .over_budget()
                 {
                     // Hang the pair, using the original expression for formatting
+                    // If the pair is punctuated, its trailing comments have already been moved after the punctuation
+                    let has_punctuation = formatted.punctuation().is_some();
                     output_expr.push(formatted.map(|_| {
                         let expression =
                             hang_expression(ctx, original, shape, calculate_hang_level(original));
+                        let expression = if has_punctuation {
+                            expression.update_trailing_trivia(FormatTriviaType::Replace(vec![]))
+                        } else {
+                            expression
+                        };
                         if idx == 0 {
                             expression
                         } else {
